@@ -48,15 +48,15 @@ ProgOfEv == regs[Ev.rid].prog
 
 TrIsMatch ==
   /\ IsEv("is_match") /\ Consume /\ UNCHANGED <<badr, badi, obs>>
-  /\ IF ~Followed(Ev.rid) THEN Bump(4) /\ UNCHANGED avars
-     ELSE IF Faulty THEN Report(FaultKind, "is_match") /\ UNCHANGED avars
+  /\ IF Faulty THEN Report(FaultKind, "is_match") /\ UNCHANGED avars
+     ELSE IF ~Followed(Ev.rid) THEN Bump(4) /\ UNCHANGED avars
      ELSE IF InputUnspec(ProgOfEv, Ev.s) THEN Bump(2) /\ UNCHANGED avars
      ELSE AIsMatch(Ev.rid, Ev.s) /\ Check(Ev.res = last'.res, "m", last'.res.v)
 
 TrReplace ==
   /\ IsEv("replace_all") /\ Consume /\ UNCHANGED <<badr, badi, obs>>
-  /\ IF ~Followed(Ev.rid) THEN Bump(4) /\ UNCHANGED avars
-     ELSE IF Faulty THEN Report(FaultKind, "replace_all") /\ UNCHANGED avars
+  /\ IF Faulty THEN Report(FaultKind, "replace_all") /\ UNCHANGED avars
+     ELSE IF ~Followed(Ev.rid) THEN Bump(4) /\ UNCHANGED avars
      ELSE LET P == ProgOfEv  s == Ev.s  repl == Ev.repl IN
        IF LangUnspec(P) THEN Bump(2) /\ UNCHANGED avars
        ELSE IF P.nullable THEN Check(ErrIs("MatchesEmptyString"), "nullable", "err") /\ UNCHANGED avars
@@ -80,9 +80,9 @@ NewObs(kind, weak) == [rid |-> Ev.rid, kind |-> kind, s |-> Ev.s, pos |-> 1, pre
 TrOpen(kind) ==
   /\ IsEv(IF kind = "tok" THEN "tokenize" ELSE "analyze") /\ Consume /\ UNCHANGED badr
   /\ LET opened == Ev.res.k = "ok" IN
-     IF ~Followed(Ev.rid)
+     IF Faulty THEN Report(FaultKind, Ev.ev) /\ UNCHANGED <<avars, obs, badi>>
+     ELSE IF ~Followed(Ev.rid)
      THEN Bump(4) /\ UNCHANGED <<avars, obs>> /\ badi' = IF opened THEN badi \cup {Ev.res.it} ELSE badi
-     ELSE IF Faulty THEN Report(FaultKind, Ev.ev) /\ UNCHANGED <<avars, obs, badi>>
      ELSE LET P == ProgOfEv
               o == IF kind = "tok" THEN TokOpen(P, Ev.s) ELSE AnaOpen(P, Ev.s) IN
        IF LangUnspec(P) THEN /\ Bump(2) /\ UNCHANGED <<avars, obs>>
@@ -101,8 +101,10 @@ FlatEntry(v) == IF "n" \in DOMAIN v THEN <<FALSE, v.n>> ELSE <<TRUE, EntryText(v
 TrNext(kind) ==
   /\ IsEv(IF kind = "tok" THEN "tok_next" ELSE "ana_next") /\ Consume /\ UNCHANGED badr
   /\ LET it == Ev.it IN
-     IF it \in badi \/ it \notin DOMAIN obs THEN Bump(4) /\ UNCHANGED <<avars, obs, badi>>
-     ELSE IF Faulty THEN Report(FaultKind, Ev.ev) /\ badi' = badi \cup {it} /\ UNCHANGED <<avars, obs>>
+     IF Faulty THEN Report(FaultKind, Ev.ev) /\ badi' = badi \cup {it} /\ UNCHANGED <<avars, obs>>
+     ELSE IF it \in badi \/ it \notin DOMAIN obs THEN
+          (* not followed, but finiteness is still owed: count the items of unfollowed iterators too *)
+          Bump(4) /\ UNCHANGED <<avars, obs, badi>>
      ELSE LET O == obs[it]  s == O.s  P == regs[O.rid].prog
               some == Ev.res.k = "some"
               text == IF some THEN ItemText(kind, Ev.res.v) ELSE <<>>
